@@ -1,0 +1,18 @@
+//go:build verif
+
+package postgres
+
+import (
+	"database/sql"
+	"time"
+)
+
+// NewVerifWorker builds a store worker over an already opened database handle, so that a
+// verification harness can drive Execute / performCommands without a Postgres server.
+func NewVerifWorker(db *sql.DB, txTimeout time.Duration) *PostgresStoreWorker {
+	return &PostgresStoreWorker{
+		config: &Config{Workers: 1, BatchSize: 1, TxTimeout: txTimeout},
+		db:     db,
+		flush:  make(chan int64, 1),
+	}
+}
